@@ -250,7 +250,8 @@ def single_cases(res, rng, tier):
             ok = (compare_paths(res, "MarkovChainSDE", gD, D, tol, ctx) and compare_paths(res, "MarkovChainSDE", gW, W, tol, ctx)
                   and compare_paths(res, "MarkovChainSDE", gJ, J, tol, ctx))
             val = rows_of(sp.value())
-            if ok and not compare_paths(res, "MarkovChainSDE value()", val, [[X[i][k] - F(x0[k]) for k in range(m)] for i in range(len(X))], tol, ctx):
+            # value() = drift + (diffusion + jump) adds three exact doubles: the sum itself may need rounding
+            if ok and not compare_paths(res, "MarkovChainSDE value()", val, [[X[i][k] - F(x0[k]) for k in range(m)] for i in range(len(X))], TOL_INEXACT, ctx):
                 ok = False
             if list(map(float, sp.jump_times)) != times:
                 res.violation("MarkovChainSDE does not return the driver's own time grid", dict(ctx, got_times=list(map(float, sp.jump_times))))
